@@ -34,7 +34,7 @@ ASSUMPTIONS = [
     "container objects (object streams, xref streams) are defined objects and expected in get_objids()",
     "damage = startxref / xref keyword / subsection header / entry format / entry offset; trailer damage is outside 'cross-reference table'",
 ]
-PROBES = ["form:table", "form:stream", "form:hybrid", "packed objects", "override of packed by direct", "override of direct by packed", "multi-range Index", "nested getobj for indirect Length", "eviction happened", "caching off", "startxref boundary placed", "crlf eol", "repository sample", "zero-width type field", "hybrid with free entries"]
+PROBES = ["form:table", "form:stream", "form:hybrid", "packed objects", "override of packed by direct", "override of direct by packed", "multi-range Index", "nested getobj for indirect Length", "eviction happened", "caching off", "startxref boundary placed", "crlf eol", "cr-only eol", "bytes after %%EOF", "repository sample", "zero-width type field", "hybrid with free entries"]
 TIERS = {
     "quick": {"batches": 16, "runs": 1200, "budget_s": 45},
     "thorough": {"batches": 128, "runs": 2500, "budget_s": 900},
@@ -151,9 +151,11 @@ def to_obj(v):
 
 def write_history(t, revs, ctx, forms=None):
     """Write all revisions; returns (list of prefixes bytes, list of container id sets, cuts, description)."""
-    eol = t.pick([b"\n", b"\n", b"\r\n"], "eol")
+    eol = t.pick([b"\n", b"\n", b"\r\n", b"\r"], "eol")
     if eol == b"\r\n":
         ctx.probe("crlf eol")
+    if eol == b"\r":
+        ctx.probe("cr-only eol")
     fw = FileWriter(tape=t, wild=False, eol=eol)
     prefixes = []
     containers = set()
@@ -259,6 +261,10 @@ def write_history(t, revs, ctx, forms=None):
             split = set(i for i in ent if t.coin(15, 100, "split"))
             prev = fw.xref_table(ent, trailer, entry_eol=t.pick([b" \n", b" \r", b"\r\n"], "entry.eol"), split=split)
         desc.append("%s(direct=%s packed=%s)" % (form, sorted(direct), sorted(packed)))
+        if t.coin(20, 100, "tail.junk"):
+            # white space or a comment after %%EOF (and before the next update)
+            fw.buf += t.pick([b"\n", b"\r\n\r\n", b"% trailing comment\n", b"   \n"], "tail.bytes")
+            ctx.probe("bytes after %%EOF")
         prefixes.append(fw.getvalue())
         container_list.append(set(containers))
     return prefixes, container_list, list(fw.cuts), desc
